@@ -1085,7 +1085,9 @@ func Script(asserts []*Term, opts ScriptOpts) string {
 	}
 	sort.Strings(un)
 	for _, n := range un {
+		TT.mu.Lock()
 		d := TT.ufs[n]
+		TT.mu.Unlock()
 		var as []string
 		for _, a := range d.Args {
 			as = append(as, a.String())
